@@ -181,7 +181,7 @@ example : OpOK (Op.data (.pkt exPkt) 1790000000000000 .err) := by
     `SystemTime + Duration` beyond the i64-second range): an instance that observed an SCT one µs
     ahead of the receiver, asked at the very end of the representable range -/
 example : ({ fdtId := 1, obj := (none : Option Toy.Obj), st := .complete, expires := some 0, inst := none,
-             utf8 := true, offset := some 1, late := false, check := true, hasMeta := true, bytes := 0 } : FdtRecv Toy.Obj).serverTime
+             utf8 := true, offset := some 1, late := false, check := true, hasMeta := true, bytes := 0, fti := none } : FdtRecv Toy.Obj).serverTime
             (9223372036854775808 * 1000000 - 1) =
           .error "overflow when adding duration to instant" := by
   simp [FdtRecv.serverTime, sysAdd, sysLimit]
